@@ -1799,6 +1799,7 @@ def run(ctx):
         'corpus_cases': len(corpus),
         'compiled': len(compiled),
         'compiler_rejected': n_rejected,
+        'generated_rejected': gen_rejected,
         'exhaustive': False,
         'pending_findings': sorted(PENDING_FINDINGS),
     })
